@@ -293,7 +293,9 @@ theorem reject_setCompPhases {s : Sys π ν} (hs : Sane s) (hw : WFr s) (x : Str
       simp only
       split
       · exact rejects_fail_ve s
-      · exact rejects_ok s _
+      · split
+        · exact rejects_fail_ve s
+        · exact rejects_ok s _
 
 theorem reject_delComp {s : Sys π ν} (hl : Legal s) (hw : WFr s) (x : String) (d : Bool) :
     Rejects s (s.delComp x d) := by
